@@ -77,6 +77,25 @@ def check_dask(chk, kind, arr, exp_rows, subtype, aff, nparts):
     if not M.rows_equal(tb, want_tb):
         fail(chk, kind, f"dask(npartitions={nparts})", subtype, aff, "", "DaskGeoSeries.total_bounds", tb, want_tb,
              dict(site="DaskGeoSeries.total_bounds"))
+    # a frame whose partition bounds are already cached, then row-filtered: the filtered frame's extents are its own
+    if len(exp_rows) >= 4:
+        df = sp.GeoDataFrame({"id": np.arange(len(arr)), "geometry": arr})
+        ddf = dd.from_pandas(df, npartitions=nparts)
+        ddf.partition_sindex  # noqa: B018
+        # drop every row that attains an extreme of the total extent, so that the filtered frame's extent really shrinks
+        keep = [i for i in range(len(arr)) if not any((not math.isnan(exp_rows[i][c])) and exp_rows[i][c] == want_tb[c] for c in range(4))]
+        if len(keep) in (0, len(arr)):
+            keep = [i for i in range(len(arr)) if i % 3 != 0]
+        f = ddf[ddf["id"].isin(keep)]
+        ftb = [float(v) for v in f.geometry.total_bounds]
+        want_f = M.total_from_rows([exp_rows[i] for i in keep])
+        if not M.rows_equal(ftb, want_f):
+            fail(chk, kind, f"dask(npartitions={nparts}) ; partition_sindex ; row filter", subtype, aff, "", "filtered DaskGeoDataFrame geometry.total_bounds", ftb, want_f,
+                 dict(site="DaskGeoSeries.total_bounds", derivation="dask-filter"))
+        ptb = [float(v) for v in ddf.geometry.total_bounds]
+        if not M.rows_equal(ptb, want_tb):
+            fail(chk, kind, f"dask(npartitions={nparts}) ; partition_sindex ; row filter ; parent", subtype, aff, "", "parent total_bounds after the child was queried", ptb, want_tb,
+                 dict(site="DaskGeoSeries.total_bounds", derivation="dask-filter-parent"))
 
 
 def fail(chk, kind, name, subtype, aff, src_desc, what, got, want, ctx):
